@@ -62,6 +62,7 @@ type Env struct {
 	depth    int
 	locals   func(e *Env, name string) (TV, bool) // late-bound lookup of program variables (loop invariants, captured variables)
 	facts    *[]Term                      // heap well-formedness facts about values read (hoistable ones only)
+	entry    map[string]TV                // entry values of parameters that were reassigned (visible through old(...))
 }
 
 func (e *Env) child() *Env {
@@ -821,7 +822,10 @@ func (e *Env) trIndex(x *ast.IndexExpr) TV {
 		case *types.Map:
 			ks, vs := sortOf(u.Key()), sortOf(u.Elem())
 			mv := vc.hget(e.heap, mapValArr(ks, vs), fmt.Sprintf("(Array Int (Array %s %s))", ks, vs))
-			return TV{T: app("select", app("select", mv, a.T), i.T), S: goSType(u.Elem())}
+			md := vc.hget(e.heap, mapDomArr(ks), mapDomSort(ks))
+			// Go semantics: a missing key (or a nil map) reads as the zero value
+			present := and(not(eq(a.T, "0")), app("select", app("select", md, a.T), i.T))
+			return TV{T: app("ite", present, app("select", app("select", mv, a.T), i.T), zeroOf(vs, vc.d)), S: goSType(u.Elem())}
 		}
 	}
 	e.fail(x, "cannot index %s", a.S.Sort)
@@ -938,6 +942,15 @@ func (e *Env) trCall(x *ast.CallExpr) TV {
 	case "old":
 		oe := *e
 		oe.heap = e.old
+		if len(e.entry) > 0 {
+			oe.vars = map[string]TV{}
+			for k, v := range e.vars {
+				oe.vars[k] = v
+			}
+			for k, v := range e.entry {
+				oe.vars[k] = v
+			}
+		}
 		return oe.tr(arg(0))
 	case "implies":
 		return TV{T: implies(e.trBool(arg(0)), e.trBool(arg(1))), S: stBool}
@@ -979,7 +992,8 @@ func (e *Env) trCall(x *ast.CallExpr) TV {
 			if mt, ok := types.Unalias(m.S.Go).Underlying().(*types.Map); ok {
 				ks := sortOf(mt.Key())
 				md := vc.hget(e.heap, mapDomArr(ks), mapDomSort(ks))
-				return TV{T: app("select", app("select", md, m.T), k.T), S: stBool}
+				// a nil map has no entries
+				return TV{T: and(not(eq(m.T, "0")), app("select", app("select", md, m.T), k.T)), S: stBool}
 			}
 		}
 		if m.S.Key != nil && m.S.Elem.Sort == "Bool" {
